@@ -19,6 +19,7 @@
 #include <stdio.h>
 #include <stdlib.h>
 #include <string.h>
+#include <fcntl.h>
 #include <sys/mman.h>
 #include <sys/stat.h>
 #include <sys/wait.h>
@@ -163,12 +164,50 @@ void *__wrap_mmap(void *a, size_t l, int p, int f, int fd, off_t o) {
 void *__wrap_mremap(void *a, size_t o, size_t n, int f, ...) {
   os_yield(10);
   void *r = __real_mremap(a, o, n, f);
-  if (pair_mode && me == 1 && r != a && r != MAP_FAILED && pair_stage == 0) { pair_vacated = a; pair_set(1); pair_wait(2); }
+  if (pair_mode == 1 && me == 1 && r != a && r != MAP_FAILED && pair_stage == 0) { pair_vacated = a; pair_set(1); pair_wait(2); }
   os_yield(11);
   return r;
 }
 int __wrap_munmap(void *a, size_t l) { os_yield(12); int r = __real_munmap(a, l); os_yield(13); return r; }
 #endif
+
+/* binpair mode: two threads each write the code of their own library-managed instance to their own file (asm_create_bin_file).
+ * Thread 1 is held at a chosen point inside its call - behind fopen, or behind fwrite and before the fclose that flushes - while
+ * thread 2 runs its complete create / assemble / write / destroy; both files must hold what they hold when the threads run alone. */
+static int bin_split = -1;   /* 0: behind fopen, 1: behind fwrite (before fclose) */
+FILE *__real_fopen(const char *, const char *); size_t __real_fwrite(const void *, size_t, size_t, FILE *); int __real_fclose(FILE *);
+static void bin_window(int at) { if (pair_mode == 2 && in_work && me == 1 && bin_split == at && pair_stage == 0) { pair_set(1); pair_wait(2); } }
+FILE *__wrap_fopen(const char *p, const char *m) { FILE *f = __real_fopen(p, m); bin_window(0); return f; }
+size_t __wrap_fwrite(const void *b, size_t sz, size_t n, FILE *f) { size_t r = __real_fwrite(b, sz, n, f); if (f != stdout && f != stderr) bin_window(1); return r; }
+int __wrap_fclose(FILE *f) { return __real_fclose(f); }
+static unsigned file_hash(const char *path, long *len) {
+  int fd = __real_open(path, O_RDONLY, 0);
+  unsigned h = 2166136261u; *len = 0;
+  if (fd < 0) { *len = -1; return 0; }
+  unsigned char b[4096]; ssize_t r;
+  while ((r = __real_read(fd, b, sizeof b)) > 0) { for (ssize_t i = 0; i < r; i++) { h ^= b[i]; h *= 16777619u; } *len += r; }
+  __real_close(fd);
+  return (h ^ (h >> 15)) & 0x3fffffff;
+}
+struct binres { int ret, bret; long flen; unsigned fhash, hash; int off; };
+static char *bin_text[2];
+static char bin_path[2][300];
+static void bin_work(int who, struct binres *r) {
+  assemblyline_t al = asm_create_instance(NULL, 0);
+  char *txt = strdup(bin_text[who]);
+  r->ret = asm_assemble_str(al, txt);
+  free(txt);
+  r->off = asm_get_offset(al);
+  r->hash = hash30(asm_get_code(al), r->off > 0 ? r->off : 0);
+  in_work = 1;
+  r->bret = asm_create_bin_file(al, bin_path[who]);
+  in_work = 0;
+  asm_destroy_instance(al);
+  r->fhash = file_hash(bin_path[who], &r->flen);
+  unlink(bin_path[who]);
+}
+static void *bin_t1(void *p) { me = 1; bin_work(0, p); pair_set(pair_stage < 2 ? 2 : pair_stage); return NULL; }
+static void *bin_t2(void *p) { me = 2; pair_wait(1); bin_work(1, p); pair_set(2); return NULL; }
 
 void *pair_t1(void *p) {
   me = 1;
@@ -328,6 +367,33 @@ int main(int argc, char **argv) {
       if (r1.ret != e1->ret || r1.off != e1->off || r1.hash != e1->hash || r2.ret != e2->ret || r2.off != e2->off || r2.hash != e2->hash) bad++;
     }
     printf("{\"e\":\"Stress\",\"threads\":2,\"rounds\":%d,\"mismatches\":%d,\"grows\":0,\"moves\":%d}\n{\"e\":\"Reset\"}\n", reps, bad, moved);
+    return 0;
+  }
+  if (!strcmp(argv[1], "binpair")) {
+    /* programs of 20 000 and 9 000 bytes (different code), so that both outputs exceed every stdio buffer size */
+    al_verif.tbl = NULL;
+    for (int w = 0; w < 2; w++) {
+      int cnt = w ? 900 : 2000;
+      bin_text[w] = malloc((size_t)cnt * 32 + 8); bin_text[w][0] = 0;
+      for (int q = 0; q < cnt; q++) strcat(bin_text[w], w ? "mov rcx, 0x5544332211998877\n" : "mov rax, 0x1122334455667788\n");
+      snprintf(bin_path[w], sizeof bin_path[w], "%s/binpair-%d.bin", dir ? dir : "/tmp", w);
+    }
+    struct binres alone[2], got[2];
+    for (int w = 0; w < 2; w++) bin_work(w, &alone[w]);
+    int bad = 0, runs = 0;
+    pair_mode = 2;
+    for (int sp = 0; sp < 2; sp++) {
+      bin_split = sp; pair_stage = 0;
+      pthread_t t1, t2;
+      pthread_create(&t1, NULL, bin_t1, &got[0]); pthread_create(&t2, NULL, bin_t2, &got[1]);
+      pthread_join(t1, NULL);
+      if (pair_stage == 0) pair_set(1);       /* the window was never reached: let thread 2 run through */
+      pthread_join(t2, NULL);
+      runs++;
+      for (int w = 0; w < 2; w++)
+        if (memcmp(&got[w], &alone[w], sizeof got[w]) || got[w].bret != 0 || got[w].flen != got[w].off || got[w].fhash != got[w].hash) bad++;
+    }
+    printf("{\"e\":\"Stress\",\"threads\":2,\"rounds\":%d,\"mismatches\":%d,\"grows\":0,\"moves\":0}\n{\"e\":\"Reset\"}\n", runs, bad);
     return 0;
   }
   if (!strcmp(argv[1], "free") || !strcmp(argv[1], "stress")) {
